@@ -3,7 +3,8 @@
 import json, os, sys
 VERIF = os.path.dirname(os.path.dirname(os.path.abspath(__file__)))
 sys.path.insert(0, os.path.join(VERIF, "lib"))
-from props import PROPS, NOT_APPLICABLE, HOOK_COMMITS  # noqa
+from props import PROPS, NOT_APPLICABLE, HOOK_COMMITS, READY  # noqa
+PROPS = {k: v for k, v in PROPS.items() if k in READY}
 
 ids = [json.loads(l)["id"] for l in open(os.path.join(VERIF, "properties.jsonl"))]
 checks = []
